@@ -207,8 +207,13 @@ inline std::vector<int> walk(const std::string& comp, const char* after,
     auto& ref = *b;
     if (const char* bad = bad_obj(ref))
       sx::fail(comp + ":" + what + "-" + bad,
-               "after %s: %s position %zu yields a %s (values so far %s)",
-               after, what, n - 1, bad, vstr(out).c_str());
+               "after %s: %s reaches, at position %zu, an object that is %s "
+               "(values so far %s)",
+               after, what, n - 1,
+               std::string(bad) == "dead-object-visible"
+                   ? "not alive (destroyed or never constructed)"
+                   : "moved-from",
+               vstr(out).c_str());
     out.push_back(val_of(ref));
   }
   return out;
